@@ -87,3 +87,6 @@ add("C26", "model_checking", "stateless deviation-bounded DFS over interleavings
 add("C25", "exploration", "bounded-exhaustive enumeration of (write history, grouping into transactions), master vs replica differential through the real Replayer",
     "every history of <=3 writes over 5 bucket kinds (fixed 1Min/1D, variable 1Sec/1Min/1H) x every partition into consecutive groups flushed as ONE transaction by the real SyncWAL loop (scheduler policy: all writers of a group queue first), so mixed fixed/variable transactions occur; captured transactions are applied on a replica server via ParseTGData + WriteCSM and all buckets compared over three ranges",
     TB + "; two server instances on one device; scripted scheduler policy", "seqmc")
+add("C33", "exploration", "bounded-exhaustive enumeration of CSV files with one fault at every (row, field) position x chunk sizes, through the real client load handler and loader",
+    "files of 0-3 rows, fault-free or with one of 5 fault kinds at every position; imported through session.(*Client).load (API client bound to the server) and through loader.CSVtoNumpyMulti with chunk sizes 1,2,3,1000; header row and column-name-map variants; success without every row in the bucket is a violation",
+    TB + "; export hook VerifLoad", "seqmc")
